@@ -16,7 +16,8 @@ DEFAULTS = {
     "CONSTANTS": "", "VARIABLES": "", "DEFINES": "", "PROCEDURES": "", "OPS": "",
     "MAINT_MPMC": "", "MAINT_SPIN": "", "IDLE": "         skip;", "MEMCASES": "",
     "FIBERFIELDS": "", "MGRFIELDS": "", "MODELED": "", "POST": "",
-    "SKIPKINDS": "", "TRACEACTIONS": "", "TRACENEXT": "",
+    "SKIPKINDS": "", "TRACEACTIONS": "", "TRACENEXT": "", "FNPROC": "",
+    "GROUPOF": "", "GROUPVAL": "", "FAITHFUL": "", "UNFAITHFUL": "", "MONFIELDS": "", "MONCASES": "",
 }
 
 
@@ -45,6 +46,27 @@ def fill(tmpl, sec, name):
     return out
 
 
+def label_proc_map(src):
+    """map every PlusCal label to the procedure/process that contains it"""
+    alg = src[src.index("--algorithm"):src.index("BEGIN TRANSLATION")]
+    cur = None
+    pairs = []
+    for line in alg.splitlines():
+        m = re.match(r"^\s*procedure\s+(\w+)\s*\(", line)
+        if m:
+            cur = m.group(1)
+        m = re.match(r"^\s*(?:fair\s+)?process\s*\(\s*(\w+)", line)
+        if m:
+            cur = m.group(1)
+        m = re.match(r"^\s*(\w+):(?!=)", line)
+        if m and cur:
+            pairs.append((m.group(1), cur))
+    pairs.append(("Error", "none"))
+    pairs.append(("Done", "none"))
+    return "[lb \\in {" + ", ".join(f'"{l}"' for l, _ in pairs) + "} |-> CASE " + \
+        " [] ".join(f'lb = "{l}" -> "{p}"' for l, p in pairs) + "]"
+
+
 def assemble(name, template="FiberCore.tmpl"):
     os.makedirs(GEN, exist_ok=True)
     sec = read_fragment(os.path.join(SPEC, "mod", name + ".mod"))
@@ -54,6 +76,7 @@ def assemble(name, template="FiberCore.tmpl"):
     steps = " \\/ ".join(f"{p}(self)" for p in procs)
     steps += " \\/ (self \\in ScriptFibers /\\ fib(self)) \\/ (self \\in MaintFibers /\\ mf(self))"
     src = src.replace("@@STEPS@@", steps)
+    src = src.replace("@@LABELPROC@@", label_proc_map(src))
     left = re.findall(r"@@\w+@@", src)
     if left:
         raise SystemExit(f"unfilled placeholders: {left}")
@@ -147,7 +170,7 @@ def gen_mc(scen, outdir=GEN):
     with open(os.path.join(outdir, f"MCL_{name}.cfg"), "w") as f:
         f.write("\n".join(live) + "\n")
     tinv = scen.get("trace_invariants", invs)
-    tr = ["SPECIFICATION TSpec"] + cl + ["INVARIANTS", " Accepted"] + [" " + i for i in tinv] + ["CHECK_DEADLOCK FALSE"]
+    tr = ["SPECIFICATION TSpec"] + cl + ["INVARIANTS", " Accepted", " MonOK"] + [" " + i for i in tinv] + ["CONSTRAINT NotYetAccepted", "CHECK_DEADLOCK FALSE"]
     with open(os.path.join(outdir, f"MCT_{name}.cfg"), "w") as f:
         f.write("\n".join(tr) + "\n")
     dg = ["SPECIFICATION TSpec"] + cl + ["CONSTRAINT DiagAt", "CHECK_DEADLOCK FALSE"]
